@@ -1026,7 +1026,13 @@ impl<Front: SocketHandler> ConnectionH1<Front> {
                 // keep alive should probably be used only if the http context is fully reset
                 // in case end_stream occurs due to an error the connection state is probably
                 // unrecoverable and should be terminated
-                if stream_context.keep_alive_backend && stream.back.is_terminated() {
+                // RFC 9112 §9.3: a connection on which the request was not sent
+                // completely (the response came early) cannot carry another
+                // request, the backend would read its head as the rest of this
+                // body.
+                let request_sent = stream.front.is_terminated() && stream.front.is_completed();
+                if stream_context.keep_alive_backend && stream.back.is_terminated() && request_sent
+                {
                     *status = BackendStatus::KeepAlive;
                 } else {
                     self.force_disconnect();
